@@ -26,6 +26,7 @@ func rulesC08(c *Ctx) {
 	ruleCounterCallers(c) // a flush releases references only through the audited primitives: it never forgets counts held by entries that remain (shared with C03)
 	ruleFlushScope(c)
 	ruleFlushTotal(c)
+	ruleStateWriters(c, writersServerElection) // the id a Flush is authorised against is written by the election only (shared with C05)
 	ruleFlushKeysPresent(c)
 	ruleExactInstanceLookup(c) // Server.Flush rejects unknown / empty names only through this lookup
 	ruleRIBCallers(c)
